@@ -29,6 +29,7 @@ def streams(tier, rng, fs, profile):
         ("g-int-write", gens.int_write_ops(rng, fs, scale=n)),
         ("g-int-write-exhaustive-small", gens.int_write_small_exhaustive(rng, fs, tier)),
         ("g-int-write-shortbuf", gens.int_write_shortbuf(rng, fs)),
+        ("g-int-write-reqsign", gens.int_write_reqsign(rng, fs)),
     ]
 
 
